@@ -153,6 +153,17 @@ def behaviour(res, inproc, rng, tier):
         cf.add(k, src, main_call=f"c{k}::run();")
         descs[str(k)] = f"#[derive(Pointer)] #[pointer({shared})] enum E<'a> {{ A(&'a u8), N {{ f: *const u8 }}, #[pointer(\"{{_0:p}}\")] O(&'a u8) }}"
         k += 1
+    # every non-Display trait: an attribute-less single-field variant under a wrapping format prints its field under the derived
+    # trait (deterministic since round 7: the random enums hit seeds C07-h / C04-i only for some generator seeds)
+    for X, an, ch, val, ty in (("Binary", "binary", "b", "10u8", "u8"), ("Octal", "octal", "o", "64u8", "u8"), ("LowerHex", "lower_hex", "x", "255u8", "u8"),
+                               ("UpperHex", "upper_hex", "X", "255u8", "u8"), ("LowerExp", "lower_exp", "e", "1234.5f64", "f64"),
+                               ("UpperExp", "upper_exp", "E", "1234.5f64", "f64")):
+        src = (f"#[derive(derive_more::{X})] #[{an}(\"<{{_variant}}>\")] pub enum E {{ A({ty}), N {{ f: {ty} }} }}\n"
+               f"pub fn run() {{ check(\"{k}\", \"A\", format!(\"{{:{ch}}}\", E::A({val})), format!(\"<{{:{ch}}}>\", {val}));\n"
+               f"  check(\"{k}\", \"N\", format!(\"{{:{ch}}}\", E::N {{ f: {val} }}), format!(\"<{{:{ch}}}>\", {val})); }}")
+        cf.add(k, src, main_call=f"c{k}::run();")
+        descs[str(k)] = f"#[derive({X})] #[{an}(\"<{{_variant}}>\")] enum E {{ A({ty}), N {{ f: {ty} }} }}"
+        k += 1
     # a variant's own literal is a *format literal* also when it has no placeholder: its `{{` / `}}` escapes are un-escaped
     # before the text is bound to `_variant` (added after seed C07-j)
     for X, an, ch in (("Display", "display", ""), ("Octal", "octal", "o")):
